@@ -223,11 +223,11 @@ contract(V3 + ".authenticate",
                      "counter_in_range": "0 <= self._packet_id <= 0xFFF",
                      "session_stays_unauthenticated": "self._local_key == old(self._local_key) and same_object(self._local_key_expiration, old(self._local_key_expiration))",
                      "only_handshake_requests_sent": "len(events('tx')) <= 1 and implies(len(events('tx')) == 1, events('tx')[0] == hs_request(old(self._packet_id), token))"}},
-                 "builtins.TimeoutError": {"emits": {"tx": "hs_request(old(self._packet_id), token)"}, "post": {
+                 "builtins.TimeoutError": {"when": "token is not None and key is not None", "emits": {"tx": "hs_request(old(self._packet_id), token)"}, "post": {
                      "counter_in_range": "0 <= self._packet_id <= 0xFFF",
                      "session_stays_unauthenticated": "self._local_key == old(self._local_key) and same_object(self._local_key_expiration, old(self._local_key_expiration))",
                      "only_handshake_requests_sent": "len(events('tx')) == 1 and events('tx')[0] == hs_request(old(self._packet_id), token)"}},
-                 "asyncio.CancelledError": {"emits": {"tx": "hs_request(old(self._packet_id), token)"}, "post": {
+                 "asyncio.CancelledError": {"when": "token is not None and key is not None", "emits": {"tx": "hs_request(old(self._packet_id), token)"}, "post": {
                      "counter_in_range": "0 <= self._packet_id <= 0xFFF",
                      "session_stays_unauthenticated": "self._local_key == old(self._local_key) and same_object(self._local_key_expiration, old(self._local_key_expiration))"}}},
          cancellation=True,
